@@ -32,10 +32,34 @@ THEOREMS = [
     "Lena.C05.runif_consistent",
     "Lena.C05.slice_consistent",
     "Lena.C05.slice_consistent_pyslice",
+    "Lena.C05.stage_consistent",
+    "Lena.C05.stage_consistent_strong",
     "Lena.C05.seq_eq_fill",
     "Lena.C05.fill_eq_split",
     "Lena.C05.three_drivers_agree",
     "Lena.C05.three_drivers_agree_no_slice",
+    "Lena.C05.split_branches_independent",
+    "Lena.C05.split_branch_eq_seq",
+    "Lena.C05.adapter_accepts_iff",
+    "Lena.C05.adapter_preserves",
+    "Lena.C05.call_accepts_iff",
+    "Lena.C05.call_rejects",
+    "Lena.C05.call_preserves",
+    "Lena.C05.sourceEl_accepts_iff",
+    "Lena.C05.sourceEl_rejects",
+    "Lena.C05.sourceEl_preserves",
+    "Lena.C05.run_accepts_iff",
+    "Lena.C05.run_rejects",
+    "Lena.C05.run_preserves",
+    "Lena.C05.fillInto_accepts_iff",
+    "Lena.C05.fillInto_rejects",
+    "Lena.C05.fillInto_preserves",
+    "Lena.C05.fillCompute_accepts_iff",
+    "Lena.C05.fillCompute_rejects",
+    "Lena.C05.fillCompute_preserves",
+    "Lena.C05.preKind_converts",
+    "Lena.C05.construct_chain",
+    "Lena.C05.constructors_only_lenaTypeError",
 ]
 TRUSTED = [
     "Lean 4.33.0 kernel; axioms limited to propext, Classical.choice, Quot.sound (audited by #print axioms on every run)",
@@ -1226,12 +1250,12 @@ def gen_cases(ctx):
                 for b in bufsizes_for(len(FLOW_A)):
                     cases.append({"op": "split", "branches": bs, "bufsize": b, "flow": FLOW_A})
     # ---- sampled ------------------------------------------------------------------------------------
-    n_rand = 1500 if not thorough else 60000
+    n_rand = 2500 if not thorough else 150000
     for _ in range(n_rand):
         in_scope = rng.random() < 0.8
         fl = gen_flow(rng)
         cases.append({"op": "chain", "args": gen_chain(rng, in_scope), "flow": fl, "bufsizes": bufsizes_for(len(fl))})
-    n_split = 500 if not thorough else 25000
+    n_split = 800 if not thorough else 60000
     for _ in range(n_split):
         cases.append(gen_split_case(rng, rng.random() < 0.9))
     return cases
